@@ -65,16 +65,19 @@ End C20.
   parallel_axis_ref spatial_inertia inertia_add : smlin.
 
 (* ------------------------------------------------------------------------------------------------
-   Dispatch model of the class layer (no arithmetic).  Mirrors the code AS IT IS:
+   Dispatch model of the class layer (no arithmetic).  Mirrors the code AS IT IS (HEAD df7016a):
      SpatialVector.__add__/__sub__ : `type(left) != type(right)` -> TypeError, then `len` differ -> ValueError,
-                                     then left.__class__([...]) whose constructor indexes arg[0] (IndexError when empty)
+                                     then left.__class__([...]) (an empty list gives an empty object since 1105ad0)
      SpatialVector.__neg__         : same constructor
+     SpatialVector(obj)            : copy, `list(value.data)` (df7016a)
      SpatialM6.cross               : only SpatialM6 has the method (AttributeError on force classes);
-                                     isinstance(other, SpatialVelocity) -> SpatialAcceleration,
-                                     isinstance(other, SpatialF6) -> SpatialForce, else TypeError
-     SpatialInertia.__mul__        : SpatialAcceleration -> SpatialForce, SpatialVelocity -> SpatialMomentum, else TypeError
-     SpatialVector.__rmul__ (SE3)  : right.__class__
-     SpatialInertia.__add__        : not a SpatialInertia -> TypeError; otherwise SpatialInertia(left.A + right.A) *)
+                                     isinstance(other, SpatialVelocity) -> SpatialAcceleration([vcross @ x for x in other.data]),
+                                     isinstance(other, SpatialF6) -> SpatialForce([...]), else TypeError      (0da5cb1: element-wise)
+     SpatialInertia.__mul__        : SpatialAcceleration -> SpatialForce, SpatialVelocity -> SpatialMomentum, else TypeError;
+                                     element-wise on the right operand
+     SpatialVector.__rmul__ (SE3)  : right.__class__([X @ x for x in right.data])
+     SpatialInertia.__add__        : not a SpatialInertia -> TypeError; otherwise SpatialInertia(left.A + right.A)
+   n is the number of values of the (right) operand. *)
 Inductive svc := Vel | Acc | Frc | Mom.
 Inductive rcls := SV (c : svc) | NotSV.         (* right operand: a spatial-vector class, or anything else *)
 Inductive exn := TypeError | ValueError | AttributeError | IndexError.
@@ -86,7 +89,7 @@ Lemma svc_eqb_spec a b : svc_eqb a b = true <-> a = b.
 Proof. destruct a, b; simpl; split; intros H; try reflexivity; discriminate. Qed.
 Definition is_motion (c : svc) : bool := match c with Vel | Acc => true | _ => false end.
 
-Definition construct (c : svc) (n : nat) : outcome := match n with O => Raise IndexError | _ => Value c n end.
+Definition construct (c : svc) (n : nat) : outcome := Value c n.
 
 Definition addsub_model (l : svc) (nl : nat) (r : rcls) (nr : nat) : outcome :=
   match r with
@@ -94,19 +97,21 @@ Definition addsub_model (l : svc) (nl : nat) (r : rcls) (nr : nat) : outcome :=
   | SV c => if svc_eqb l c then (if Nat.eqb nl nr then construct l nl else Raise ValueError) else Raise TypeError
   end.
 Definition neg_model (l : svc) (n : nat) : outcome := construct l n.
+Definition copy_model (l : svc) (n : nat) : outcome := construct l n.
 
-Definition cross_model (l : svc) (r : rcls) : outcome :=
+(* left operand single-valued, right operand with n values *)
+Definition cross_model (l : svc) (r : rcls) (n : nat) : outcome :=
   match l with
   | Frc | Mom => Raise AttributeError
   | Vel | Acc => match r with
-                 | SV Vel => Value Acc 1
-                 | SV Frc | SV Mom => Value Frc 1
+                 | SV Vel => construct Acc n
+                 | SV Frc | SV Mom => construct Frc n
                  | SV Acc | NotSV => Raise TypeError
                  end
   end.
-Definition imul_model (r : rcls) : outcome :=
-  match r with SV Acc => Value Frc 1 | SV Vel => Value Mom 1 | _ => Raise TypeError end.
-Definition se3mul_model (c : svc) : outcome := Value c 1.
+Definition imul_model (r : rcls) (n : nat) : outcome :=
+  match r with SV Acc => construct Frc n | SV Vel => construct Mom n | _ => Raise TypeError end.
+Definition se3mul_model (c : svc) (n : nat) : outcome := construct c n.
 
 Inductive ioutcome := ISum | IRaise (e : exn).
 Definition iadd_model (right_is_inertia : bool) : ioutcome :=
@@ -115,13 +120,13 @@ Definition iadd_model (right_is_inertia : bool) : ioutcome :=
 (* What the property asks for ("expected table"): None = rejected, Some (class, length) = accepted. *)
 Definition addsub_expected (l : svc) (nl : nat) (r : rcls) (nr : nat) : option (svc * nat) :=
   match r with SV c => if svc_eqb l c && Nat.eqb nl nr then Some (l, nl) else None | NotSV => None end.
-Definition cross_expected (l : svc) (r : rcls) : option (svc * nat) :=
-  (* motion x motion is a motion vector, motion x* force a force vector; everything else is rejected.
-     The class of motion x motion is the one the library documents (SpatialAcceleration). *)
-  if is_motion l then match r with SV Vel | SV Acc => Some (Acc, 1) | SV Frc | SV Mom => Some (Frc, 1) | NotSV => None end
+Definition cross_expected (l : svc) (r : rcls) (n : nat) : option (svc * nat) :=
+  (* motion x motion is a motion vector, motion x* force a force vector, one per value of the right operand;
+     everything else is rejected.  The class of motion x motion is the one the library documents (SpatialAcceleration). *)
+  if is_motion l then match r with SV Vel | SV Acc => Some (Acc, n) | SV Frc | SV Mom => Some (Frc, n) | NotSV => None end
   else None.
-Definition imul_expected (r : rcls) : option (svc * nat) :=
-  match r with SV Acc => Some (Frc, 1) | SV Vel => Some (Mom, 1) | _ => None end.
+Definition imul_expected (r : rcls) (n : nat) : option (svc * nat) :=
+  match r with SV Acc => Some (Frc, n) | SV Vel => Some (Mom, n) | _ => None end.
 Definition iadd_expected (right_is_inertia : bool) : ioutcome := if right_is_inertia then ISum else IRaise TypeError.
 
 Definition agrees (o : outcome) (e : option (svc * nat)) : bool :=
@@ -133,7 +138,8 @@ Definition agrees (o : outcome) (e : option (svc * nat)) : bool :=
 
 Definition all_svc : list svc := [Vel; Acc; Frc; Mom].
 Definition all_rcls : list rcls := [SV Vel; SV Acc; SV Frc; SV Mom; NotSV].
-Definition lens : list nat := [1; 2; 3; 6]%nat.
+Definition lens : list nat := [0; 1; 2; 3; 6]%nat.
 Definition addsub_cells : list (svc * nat * rcls * nat) :=
   flat_map (fun l => flat_map (fun nl => flat_map (fun r => map (fun nr => (l, nl, r, nr)) lens) all_rcls) lens) all_svc.
-Definition cross_cells : list (svc * rcls) := flat_map (fun l => map (fun r => (l, r)) all_rcls) all_svc.
+Definition cross_cells : list (svc * rcls * nat) :=
+  flat_map (fun l => flat_map (fun r => map (fun n => (l, r, n)) lens) all_rcls) all_svc.
